@@ -1,7 +1,7 @@
 (* C20 A terminal's FMMUs are never shared by two live mappings.
    Model: Ecat/Fmmu.v (Terminal.map_fmmu slot choice with Python slice /
    index / negative-index semantics; any order of map and unmap). *)
-From Verif Require Import Ecat.Fmmu Ecat.Fmmu_proofs.
+From Verif Require Import Ecat.Fmmu Ecat.Fmmu_proofs Ecat.FmmuGroup Ecat.FmmuGroup_proofs.
 
 (* after ANY sequence of overlapping map/unmap operations on a terminal with
    any number of FMMUs, the live mappings use pairwise different, existing
@@ -46,3 +46,24 @@ Proof.
   split; [reflexivity|]. split; [reflexivity|]. intros u1 H. vm_compute in H. injection H as <-. vm_compute. discriminate.
 Qed.
 Print Assumptions C20_split_booking_refuted.
+
+(* ---- several sync groups share one terminal (Ecat/FmmuGroup.v: SyncGroupBase.map_fmmu maps the output image, then the input
+   image, in one exit stack).  A group that is refused - also after its output image had already been mapped - leaves the
+   terminal's bookings EXACTLY as it found them, so the groups that are running keep theirs ... *)
+Theorem C20_refused_group_restores : forall u out_ inp, group_enter u out_ (Some inp) = None -> unwind u out_ inp = Some u.
+Proof. exact group_refused_restores. Qed.
+Print Assumptions C20_refused_group_restores.
+
+(* ... and a group that is accepted gets only FMMUs that were free, distinct ones, and changes no other entry of the table *)
+Theorem C20_accepted_group : forall u out_ inp sl u', group_enter u out_ inp = Some (sl, u') ->
+  length u' = length u /\
+  (forall i, In i sl -> 0 <= i < zlen u /\ free u (Z.to_nat i)) /\
+  (forall j, ~ In (Z.of_nat j) sl -> nth_error u' j = nth_error u j) /\
+  NoDup sl.
+Proof. exact group_enter_spec. Qed.
+Print Assumptions C20_accepted_group.
+
+Example C20_groups_nonvacuous :
+  let s := fold_left gstep [GMap 0 (Some 6144) (Some 4096); GMap 1 (Some 100) (Some 200); GUnmap 0; GMap 2 None (Some 300)] (ginit 2) in
+  gtbl s = [None; Some 300] /\ groups s = [(2%nat, [1])] /\ unwind [Some 4096; Some 6144] (Some 100) 200 = Some [Some 4096; Some 6144].
+Proof. vm_compute. repeat split. Qed.
